@@ -4,6 +4,7 @@
 From Coq Require Import Reals Qreals.
 From V Require Import lib.Common lib.Layout lib.Sorting gen.GridArith model.PairTables model.EamTables model.ExcelTables
                       proof.LayoutLemmas proof.C01 proof.C03 proof.C19.
+From V Require Import model.NumFormat proof.NumFormatProofs.
 Local Open Scope Q_scope.
 
 (* GULP: per potential "spline cubic", "A B cutoff", then exactly nr rows "energy separation" at r_i = i*cutoff/(nr-1) *)
@@ -64,6 +65,14 @@ Proof. reflexivity. Qed.
 Theorem c19_excel_grids : forall cutoff nr cutoff_rho nrho n, (2 <= nr)%Z -> (2 <= nrho)%Z ->
   r_value cutoff nr n == inject_Z n * pair_dr cutoff nr /\ rho_value cutoff_rho nrho n == inject_Z n * eam_drho cutoff_rho nrho.
 Proof. intros. split; [apply r_value_grid|apply rho_value_grid]; assumption. Qed.
+
+(* what the printed cells mean.  GULP rows are printed with "{:.10f}": the text reads back as the value rounded to ten decimals *)
+Theorem c19_gulp_cell_text : forall neg m e t, (0 <= m)%Z -> fmt_float F_10f neg m e = Some t ->
+  read_number t = Some (mkp neg (fixed_int 10 m e) 10 0).
+Proof. intros neg m e t Hm H. inversion H. apply (fmt_reads false 9 false 0 neg m e Hm). Qed.
+Theorem c19_gulp_cell_value : forall m e, (0 <= m)%Z -> let '(n, q) := frac m e in
+  (Z.abs (2 * fixed_int 10 m e * q - 2 * (n * 10 ^ 10)) <= q)%Z.
+Proof. exact (fixed_close 10). Qed.
 
 Example c19_example :
   let pots := [{| p_a := 0; p_b := 1; p_hasd := false |}] in
